@@ -18,6 +18,11 @@ DB_COMPONENTS = dict(
 
 CLASS_PROPERTY = {
     "snapshot_inconsistent": "C04",
+    "stale_read": "C09", "final_store_content": "C09",
+    "batch_identity": "C10", "batch_content": "C10", "batch_order": "C10", "final_content": "C10", "after_commit_lost": "C10",
+    "not_canonical": "C15",
+    "pinned_entry_lost": "C16", "stale_or_ghost_value": "C16", "bound_exceeded": "C16",
+    "lost_element": "C02", "set_not_linearizable": "C02",
     "unstable_in_epoch": "C06",
     "hang": None,
     "stuck": None,
@@ -159,6 +164,80 @@ PROPS["C06"] = dict(
     assumptions=COMMON_ASSUME + ["cycle defaults are per query type (the executor API has no per-key default)"],
 )
 
+STORAGE_COMPONENTS = dict(
+    real=["qbice_storage: CacheSingleMap / CacheDynamicMap / CacheKeyOfSetMap, WideColumnCache, TinyLFU, single-flight, "
+          "WriteBehind pipeline (real serializer / commit / after-commit threads, every step an explicit scheduler action)",
+          "real harness threads, one at a time (token scheduler) with scheduling points between operations and in the "
+          "hooked windows of the code"],
+    stub=["disk: SimKv"],
+)
+
+PROPS["C02"]["packages"] = ["engine_sim", "storage_sim"]
+PROPS["C02"]["parts"] = [
+    dict(bin="engine_sim", args=["--prop", "C02"], workers=12),
+    dict(bin="storage_sim", args=["--prop", "C02"], workers=4),
+]
+PROPS["C02"]["rule"] += (" | structure level (storage_sim, 4 of 16 workers): CompressedBackwardEdgeSet pre-filled to 27-33 "
+                         "elements, 2-4 token-scheduled threads insert/remove their own elements and read len()/iter(), "
+                         "with a scheduling point in the 32 -> large upgrade; per-element single-writer register rule")
+PROPS["C09"] = dict(
+    bin="storage_sim", packages=["storage_sim"], args=["--prop", "C09"],
+    quick_s=60, thorough_s=600, level="exploration", also=[],
+    rule=("single, two-type and key-to-set maps of DbBacked<SimKv> driven directly: one thread (2/3 of the runs) or a "
+          "single writer per key with racing readers (1/3); 20-120 (thorough 300) operations per thread over 2-8 (16) "
+          "keys: open up to two batches, insert/remove into them (never into an older batch than an earlier write of "
+          "the same key), submit in any order, get / iterate; every pipeline step (serialize batch e, commit, deliver "
+          "after-commit notification) is a scheduler action between any two operations; cache capacity 1-16; sets "
+          "pre-populated to 1019-1027 members so that the 1024 spill threshold is crossed in both directions; "
+          "scheduling points inside the fill and write windows. Oracle: per register (map, key[, element]) a read may "
+          "return the last write completed before it started or one overlapping it, nothing older; after shutdown the "
+          "store holds the last writes. non-trivial = a cache-miss path and a pipeline step occurred; distinct = "
+          "hash(scenario)"),
+    components=STORAGE_COMPONENTS,
+    assumptions=["sequential consistency between scheduling points", "writes to one key are issued into batches in "
+                 "creation order (the store applies batches in creation order; the inverse is a usage error outside the property)"],
+)
+PROPS["C10"] = dict(
+    bin="storage_sim", packages=["storage_sim"], args=["--prop", "C10"],
+    quick_s=45, thorough_s=600, level="exploration", also=[],
+    rule=("WriteBehind<SimKv> with 1-4 serializer threads; 1-4 token-scheduled threads create, fill (overlapping keys "
+          "in single, dynamic and set columns) and submit batches in any order; the scheduler picks which parked "
+          "serializer proceeds, so any arrival order at the commit stage is reachable; 1-5 logical batches per physical "
+          "commit. Oracle: every batch carries a marker; the store's log must contain every created batch exactly once, "
+          "in creation order, with exactly the operations issued into it; when drop(write manager) returns the store "
+          "equals the sequential application of the batches; pipeline counters balance. non-trivial = >=2 batches and "
+          "(submission order != creation order, or a multi-batch commit, or a pipeline step interleaved); distinct = hash(scenario)"),
+    components=STORAGE_COMPONENTS,
+    assumptions=["every created batch is submitted (an abandoned batch is C05's subject)"],
+)
+PROPS["C15"] = dict(
+    bin="storage_sim", packages=["storage_sim"], args=["--prop", "C15"],
+    quick_s=45, thorough_s=600, level="exploration", also=[],
+    rule=("Interner::new (no timer thread; vacuum is an operation); 2-4 (thorough 8) token-scheduled threads over 1-4 "
+          "values x 3 types (two sized structs with equal content, str): intern, intern_unsized, clone, drop (incl. "
+          "the last handle), get_from_hash, vacuum, and encode/decode of a structure with repeated and nested handles "
+          "with the same or a fresh interner; scheduling points between operations and between the read-miss and the "
+          "write-lock re-check. Invariant at every registration: live handles of one (type, value) are one allocation "
+          "with the right content; get_from_hash returns None only if no handle was live throughout the call; decoded "
+          "duplicates share. non-trivial = a thread was descheduled inside the probe/insert window; distinct = hash(scenario)"),
+    components=dict(real=["qbice_storage::intern::Interner, Interned encode/decode, real threads under the token scheduler"], stub=[]),
+    assumptions=["sequential consistency between scheduling points (Arc/Weak internals are not interleaved)"],
+)
+PROPS["C16"] = dict(
+    bin="storage_sim", packages=["storage_sim"], args=["--prop", "C16"],
+    quick_s=45, thorough_s=600, level="exploration", also=[],
+    rule=("TinyLFU<u32, Arc<Cell>> through its public API, capacity 1-40 (thorough 300), key universe 2-12x capacity, "
+          "both unpin strategies, Piggyback maintenance; histories of 40-600 (thorough 5000) get / insert-or-update / "
+          "remove / pin / unpin / probe operations, single-threaded (3/4) or 2-4 token-scheduled threads with a single "
+          "writer per key and scheduling points inside the cache. Oracle: a read returns the latest value or, only "
+          "for an entry that was un-pinned since its last write or removed, nothing; entries pinned since their last "
+          "write are resident at every probe and at the end; probes bound the resident count by capacity + pinned + "
+          "36; no panic. non-trivial = an eviction attempt hit a pinned key, or misses and pins both occurred; "
+          "distinct = hash(scenario)"),
+    components=dict(real=["qbice_storage::tiny_lfu (policy, LRU regions, sketch, read/write buffers)"], stub=["pin predicate: harness LifecycleListener"]),
+    assumptions=["the per-query lock table built on it is covered at engine level by C02 (single-flight) only"],
+)
+
 HOOK_COMMITS = ["06b6edb", "0ffc033", "d5f7b95", "752f4f3"]
 
 NOT_BUILT = "check not built yet (work in progress in this session; see DESIGN.md section 8 for the order of construction)"
@@ -172,6 +251,34 @@ for _p in [ "C09", "C10", "C11", "C12", "C13", "C15", "C16"]:
         NOT_APPLICABLE[_p] = NOT_BUILT
 
 MANIFEST_TEXT = {
+    "C09": dict(
+        text=("Seeded exploration of operation histories x pipeline-step placements x cache capacities x racing "
+              "readers against a per-register reference (single-writer register rule)."),
+        design_ref="DESIGN.md section 4 C09",
+        note="trusted: SimKv, the step gate of the pipeline, the token scheduler; hook windows are the H2/H3/H6 sites",
+        technique="deterministic simulation: token-scheduled real threads + explicit pipeline steps, reference-model oracle",
+    ),
+    "C10": dict(
+        text=("Seeded exploration of submitter/serializer interleavings and grouping decisions; the simulated disk's "
+              "log is checked for exactly-once, order and content, at shutdown."),
+        design_ref="DESIGN.md section 4 C10",
+        note="trusted: SimKv log, marker column, step gate accounting",
+        technique="deterministic simulation: token-scheduled threads, explicit pipeline steps, log oracle",
+    ),
+    "C15": dict(
+        text=("Seeded exploration of intern/lookup/drop/vacuum/codec interleavings with a canonicity invariant "
+              "evaluated whenever a handle is obtained."),
+        design_ref="DESIGN.md section 4 C15",
+        note="trusted: harness registry of live handles; block-level atomicity between scheduling points",
+        technique="deterministic simulation: token-scheduled real threads, invariant oracle",
+    ),
+    "C16": dict(
+        text=("Seeded exploration of long access histories and thread interleavings against a reference map with pin "
+              "set and a resident-count bound."),
+        design_ref="DESIGN.md section 4 C16",
+        note="trusted: reference model; slack 36 justified from the maintenance batch size (33 buffered writes), window rounding (+2) and +1",
+        technique="deterministic simulation: seeded histories, token-scheduled threads, reference-model oracle",
+    ),
     "C06": dict(
         text=("Seeded exploration of small cyclic dependency graphs, roots, histories and (for a third of the "
               "runs) task interleavings, against an executable depth-first-with-defaults model; termination is "
